@@ -72,6 +72,35 @@ def _and(a, b):
     return a & b
 
 
+
+def _either(pos, kw, name):
+    """xarray's either_dict_or_kwargs"""
+    if pos is None or pos == {}:
+        return dict(kw)
+    if not isinstance(pos, dict):
+        raise ValueError("the first argument to .%s must be a dictionary" % name)
+    if kw:
+        raise ValueError("cannot specify both keyword and positional arguments to .%s" % name)
+    return dict(pos)
+
+
+def _at(labels, i):
+    if isinstance(i, bool) or not isinstance(i, int):
+        raise NotImplementedError("MiniXR.isel: scalar integer positions only")
+    n = len(labels)
+    if not -n <= i < n:
+        raise IndexError("index %d is out of bounds for axis with size %d" % (i, n))
+    return labels[i]
+
+
+def _sel_options(method, tolerance):
+    # exact label look-up only; `tolerance` without a `method` is ignored by the index look-up for labels that are
+    # present, any `method` other than None is outside the model
+    if method is not None:
+        if not isinstance(method, str):
+            raise TypeError("``method`` must be a string")
+        raise NotImplementedError("MiniXR.sel: method=%r" % (method,))
+
 class MergeError(ValueError):
     pass
 
@@ -328,9 +357,18 @@ class DataArray:
         ds._vars[name].name = name
         return ds
 
-    def sel(self, indexers=None, **kw):
-        ind = dict(indexers or {})
-        ind.update(kw)
+    def isel(self, indexers=None, drop=False, missing_dims="raise", **kw):
+        ind = _either(indexers, kw, "isel")
+        lab = {}
+        for d, i in ind.items():
+            if d not in self.dims:
+                raise ValueError("Dimensions {%r} do not exist. Expected one or more of %r" % (d, self.dims))
+            lab[d] = _at(self.coords_[d], i)
+        return self.sel(lab)
+
+    def sel(self, indexers=None, method=None, tolerance=None, drop=False, **kw):
+        ind = _either(indexers, kw, "sel")
+        _sel_options(method, tolerance)
         for d in ind:
             if d not in self.dims:
                 raise KeyError("%r is not a valid dimension or coordinate" % (d,))
@@ -732,9 +770,19 @@ class Dataset:
             coords[d] = self._coords[d]
         return DataArray(("variable",) + tuple(dims), coords, cells)
 
-    def sel(self, indexers=None, **kw):
-        ind = dict(indexers or {})
-        ind.update(kw)
+    def isel(self, indexers=None, drop=False, missing_dims="raise", **kw):
+        ind = _either(indexers, kw, "isel")
+        lab = {}
+        for d, i in ind.items():
+            if d not in self._coords:
+                raise ValueError("Dimensions {%r} do not exist. Expected one or more of %r"
+                                 % (d, tuple(self._coords)))
+            lab[d] = _at(self._coords[d], i)
+        return self._take(lab, drop)
+
+    def sel(self, indexers=None, method=None, tolerance=None, drop=False, **kw):
+        ind = _either(indexers, kw, "sel")
+        _sel_options(method, tolerance)
         for d in ind:
             if d not in self._coords:
                 raise KeyError("%r is not a valid dimension or coordinate" % (d,))
@@ -743,12 +791,16 @@ class Dataset:
                 raise KeyError("no index found for coordinate %r" % (d,))
             if not _contains(self._coords[d], lab):
                 raise KeyError("not all values found in index %r" % (d,))
+        return self._take(ind, drop)
+
+    def _take(self, ind, drop=False):
         out = Dataset()
         out.attrs = dict(self.attrs)
         out._coords = {d: list(v) for d, v in self._coords.items() if d not in ind}
         out._nocoord = set(self._nocoord)
         out._scalar_coords = dict(self._scalar_coords)
-        out._scalar_coords.update(ind)
+        if not drop:
+            out._scalar_coords.update(ind)
         for n, da in self._vars.items():
             sub = {d: l for d, l in ind.items() if d in da.dims}
             out._vars[n] = da.sel(sub) if sub else da.copy(deep=True)
